@@ -754,7 +754,14 @@ func c37NothingOverwritten(before, after []c37RawBucket) string {
 	return ""
 }
 
+// opening a storage is serialized inside pithos (sqlite.OpenDatabase holds a global mutex while it
+// applies the schema migrations), so more than a handful of concurrently running cases only adds
+// start-up cost: at most c37MaxConcurrent cases (2 storages each) run at a time
+var c37Sem = make(chan struct{}, 6)
+
 func (c37) Run(in string, scratch string) Result {
+	c37Sem <- struct{}{}
+	defer func() { <-c37Sem }()
 	t := strings.Split(in, " ")
 	if len(t) < 5 || t[0] != "M" {
 		return Result{Out: "PARSE-ERROR", Tags: []string{"invalid"}}
